@@ -11,6 +11,35 @@ sys.path.insert(0, HERE)
 from pcstatic import core, loader
 
 
+def run_selftest(ctx, prop):
+  """Thorough tier: sensitivity self-test of this property's rules on scratch copies of the current tree.
+  A catalogued mutant that no longer fires, or a behaviour-preserving twin that fires, means the checker is broken
+  (analysis incomplete, exit 2) - never a violation of the property."""
+  import subprocess
+  r = subprocess.run(["/venv/bin/python", os.path.join(HERE, "selftest", "run.py"), "--prop", prop, "--jobs", "16"],
+                     capture_output=True, text=True, timeout=3000)
+  rows = fired = silent = skipped = 0
+  for line in r.stdout.splitlines():
+    parts = line.split()
+    if len(parts) < 4 or parts[1] not in ("fire", "silent", "undecided"):
+      continue
+    rows += 1
+    rid, kind, status = parts[0], parts[1], parts[3]
+    what = " ".join(parts[4:])
+    if status == "ok":
+      ctx.ok("SELFTEST", "selftest:" + rid, kind, what)
+      fired += kind == "fire"
+      silent += kind == "silent"
+    elif status == "skipped":
+      skipped += 1
+      ctx.note("selftest row %s skipped (anchor text not present on this tree)" % rid)
+    else:
+      ctx.incomplete("SELFTEST", "selftest:" + rid, kind, "catalogued %s row behaves as %s: %s" % (kind, status, what))
+  ctx.extra["selftest"] = {"rows": rows, "mutants_detected": fired, "twins_silent": silent, "skipped": skipped}
+  if rows == 0:
+    ctx.incomplete("SELFTEST", "selftest", "catalogue", "no catalogue rows ran for this property: %s" % r.stderr[-200:])
+
+
 def main(argv):
   if len(argv) < 2:
     print(__doc__)
@@ -48,6 +77,9 @@ def main(argv):
       print("replaying %s: rule=%s where=%s construct=%s" % (explain, rp.get("rule"), rp.get("where"), rp.get("construct")))
       ctx.extra["replay_of"] = rp.get("key")
     mod.run(ctx)
+    if tier == "thorough" and not explain and core.REPO == os.environ.get("PCSTATIC_REPO", "/repo") \
+       and not any(r.status == "violation" and r.key not in {k["key"] for k in core.load_known().get("findings", [])} for r in ctx.results):
+      run_selftest(ctx, prop)
     if explain:
       hit = [r for r in ctx.results if r.key == rp.get("key")]
       for r in hit:
